@@ -723,7 +723,19 @@ fn run_split(out: &mut Vec<(String, String)>, lines: &mut Vec<String>) -> (u64, 
                     continue;
                 }
                 let snap = spec.clone();
-                let e3 = ctl.step(1);
+                // the reader reads id and root now; it must either be done (they match its registration) or
+                // drop the registration and register again until they do
+                let mut e3 = ctl.step(1);
+                let mut retried = false;
+                let mut guard_steps = 0;
+                while let Event::At(_) = e3 {
+                    retried = true;
+                    guard_steps += 1;
+                    if guard_steps > 20 {
+                        break;
+                    }
+                    e3 = ctl.step(1);
+                }
                 if e3 != Event::Done("ok".into()) {
                     out.push(("c02-history-error".into(), format!("split {pre}-{over}-{churn}: begin_read returned {e3:?}")));
                     continue;
@@ -737,7 +749,7 @@ fn run_split(out: &mut Vec<(String, String)>, lines: &mut Vec<String>) -> (u64, 
                         continue;
                     }
                 };
-                rd.late_root_nd = latest_durable_at_reg && *over == "cn";
+                rd.late_root_nd = latest_durable_at_reg && *over == "cn" && !retried;
                 let mut log = vec![format!("split pre={pre} over={over} churn={churn} cache={cache}")];
                 let mut bad = false;
                 for i in 0..5 {
